@@ -106,7 +106,7 @@ def run(ctx):
     if not core.prepare(ctx):
         return core.finish(ctx, rule=RULE)
     core.proof_gate(ctx)
-    n = 4000 if ctx.tier == "quick" else 60000
+    n = 10000 if ctx.tier == "quick" else 60000
     lines = corpus_lines(ctx) + [make_case(ctx.rng, i) for i in range(n)]
     if ctx.tier == "thorough":
         lines += exhaustive(ctx.rng)
